@@ -4,13 +4,16 @@
      * lossy RGBA path: colour bytes determined by the planes; the alpha loop then determines every alpha byte from the
        ALPH payload alone -- two runs on buffers with different prior contents give identical buffers;
      * three-channel output = four-channel output with alpha dropped (the copy loop of the lossless-without-alpha path).
-   The size check / wrong-length rejection, and the buffer-independence of the in-place lossless decode are decided on
-   the implementation by the harness (c11) and are proved at model level in the container / lossless files when those
-   are present (see evidence: theorem list). *)
+     * lossless path (module LL): LosslessDecoder::decode_frame, which decodes IN PLACE in the caller's buffer (entropy decoding,
+       then up to four inverse transforms), gives the same verdict and the same pixels for any two buffers of the right size and
+       any two fill_buf schedules; on success the pixels are exactly the specification's (Properties/C01.v R.frame_sound), so
+       every output byte is determined by the file.
+   The size check / wrong-length rejection and the agreement of the wrappings are decided on the implementation by the harness (c11). *)
 From Coq Require Import ZArith List.
 From WebP Require Import Gen.Kernels Lib.ZBits Lib.Res Spec.YUV Model.Yuv Spec.Alpha Model.Alpha Model.Still
   Proofs.C13_yuv Proofs.Alpha_unfilter Proofs.Still_glue.
 From WebP Require Model.Container Proofs.Container_simple.
+From WebP Require Lib.Arr Model.LosslessLib Model.Lossless Proofs.C04_bits Proofs.C01_top Proofs.C11_lossless.
 Import ListNotations.
 Open Scope Z_scope.
 
@@ -44,3 +47,18 @@ Proof. exact Proofs.Container_simple.output_buffer_size_ok. Qed.
 Example c11_instance :
   drop_alpha_into [1; 2; 3; 4; 5; 6; 7; 8] [9; 9; 9; 9; 9; 9] = [1; 2; 3; 5; 6; 7].
 Proof. reflexivity. Qed.
+
+(* ---------------- lossless payloads: in-place decode independent of prior buffer contents ---------------- *)
+Module LL.
+  Import Lib.Res Lib.ZBits Model.Lossless Proofs.C04_bits Proofs.C01_top Proofs.C11_lossless.
+
+  Theorem lossless_buffer_independent : forall data sched1 sched2 W h buf1 buf2,
+    Forall byte data -> Z.of_nat (length buf1) = 4 * (W * h) -> Z.of_nat (length buf2) = 4 * (W * h) ->
+    (forall s0, V.read_header (V.Stream [] data) = Some (W, h, s0) -> in_format W h s0) ->
+    match decode_frame data sched1 W h false buf1, decode_frame data sched2 W h false buf2 with
+    | Ok p1, Ok p2 => p1 = p2
+    | Err _, Err _ => True
+    | _, _ => False
+    end.
+  Proof. exact decode_frame_buffer_and_schedule_independent. Qed.
+End LL.
